@@ -33,7 +33,7 @@ LOAD_ROOTS = [
     r"^ast_grep_config::rule_config::RuleConfig::<L>::(try_from|deserialize)$",
     r"^ast_grep_config::rule::deserialize_env::DeserializeEnv::<L>::(with_utils|parse_global_utils)$",
     r"^ast_grep_config::rule_core::SerializableRuleCore::get_matcher",
-    r"^ast_grep::config::", r"^ast_grep::verify::find_file::",
+    r"^ast_grep::config::", r"^ast_grep::verify::", r"^ast_grep::lsp::",
     r"^ast_grep_config::rule_collection::RuleCollection::<L>::",
 ]
 SCAN_ROOTS = [
